@@ -1166,6 +1166,19 @@ class NestedPipeFunc(PipeFunc):
         }
 
     @functools.cached_property
+    def output_annotation(self) -> dict[str, Any]:
+        """Return the type annotations of the outputs, taken from the functions that produce them."""
+        # The wrapped callable returns the dictionary with all results
+        # of the internal pipeline, its return annotation says nothing about the outputs.
+        inner: dict[str, Any] = {}
+        for f in self.pipeline.functions:
+            inner.update(f.output_annotation)
+        return {
+            self._renames.get(name, name): inner.get(name, NoAnnotation)
+            for name in at_least_tuple(self._output_name)
+        }
+
+    @functools.cached_property
     def _all_outputs(self) -> tuple[str, ...]:
         outputs: set[str] = set()
         for f in self.pipeline.functions:
